@@ -60,7 +60,8 @@ def generate(ctx, mix=None, n_quick=QUICK, n_thorough=THOROUGH):
         ops += [["hash", i] for i in range(len(w.nodes))]
         cases.append({"kind": kind, "ops": ops})
     if mix is MIX:
-        cases = replacement_matrix() + cases
+        cases = replacement_matrix() + shared_child_family() + cases
+        ctx.exhaustive_parts.append("shared child: an inner node under two parents (equal or different data, either attachment order) is replaced / deleted / updated away in one of them, then changed below, with every read in between")
         ctx.exhaustive_parts.append("replacement matrix: (old, new) child pairs x pre-hashed x shared x {set, nested set, update}, both kinds")
     return cases
 
@@ -120,6 +121,53 @@ def replacement_matrix():
                             ops += [["hash", i] for i in range(n)]
                             cases.append({"kind": kind, "ops": ops})
     return cases
+
+
+def shared_child_family():
+    """Systematic family: an inner node S is attached to two parents P1, P2 (structurally equal or
+    not, in either order), removed from one of them by assignment / deletion / bulk update, and then
+    changed below; every hash is read before, between and after.  The parent that still holds S must
+    follow every change made inside S."""
+    nm = lambda b: b.hex()
+    out = []
+    for kind in ("A", "B"):
+        B = kind == "B"
+        mk = lambda d, leaf: ["new", (2 * d + (1 if leaf else 0)) if B else d, B and not leaf, leaf]
+        reads = lambda ids: [[t, p] for p in ids for t in (("hash", "ent", "mod") if B else ("hash",))]
+        for equal_parents in (True, False):
+            for first in (0, 1):
+                for drop_from in (0, 1):
+                    for how in ("set", "del", "upd") + (("nested",) if B else ()):
+                        for change in ("add", "del", "replace"):
+                            # 0 P1, 1 P2, 2 S, 3 leaf under S, 4 replacement, 5 new leaf, 6 top (holds P1 and P2)
+                            ops = [mk(1, False), mk(1 if equal_parents else 2, False), mk(3, False), mk(1, True), mk(4, False), mk(2, True), mk(9, False)]
+                            ops += [["set", 2, 3, nm(b"k")]]
+                            order = [0, 1] if first == 0 else [1, 0]
+                            for p in order:
+                                ops += [["set", p, 2, nm(b"s")]]
+                            ops += [["set", 6, 0, nm(b"p1")], ["set", 6, 1, nm(b"p2")]]
+                            ops += reads([6, 0, 1])
+                            p = drop_from
+                            if how == "set":
+                                ops += [["set", p, 4, nm(b"s")]]
+                            elif how == "nested":
+                                ops += [["set", 6, 4, nm(b"p1" if p == 0 else b"p2"), nm(b"s")]]
+                            elif how == "del":
+                                ops += [["del", p, nm(b"s")]]
+                            else:
+                                ops += [["upd", p, [[nm(b"s"), 4]]]]
+                            ops += reads([6, 0, 1])
+                            if change == "add":
+                                ops += [["set", 2, 5, nm(b"m")]]
+                            elif change == "del":
+                                ops += [["del", 2, nm(b"k")]]
+                            else:
+                                ops += [["set", 2, 5, nm(b"k")]]
+                            ops += reads([1 - p, 6, p])
+                            ops += [["set", 2, 3, nm(b"z")]] + reads([6])
+                            n = len([o for o in ops if o[0] == "new"])
+                            out.append({"kind": kind, "ops": ops + [["hash", i] for i in range(n)]})
+    return out
 
 
 def run_history(ctx, case, prop):
